@@ -7,6 +7,7 @@ are read identically by asyncssh.
 """
 
 import base64
+import asyncio
 import itertools
 import json
 import os
@@ -661,6 +662,111 @@ def foreign_worker(_job):
     return acc
 
 
+# ------------------------------------------------------------------ the ways a key file is read
+def paths_worker(job):
+    """One encrypted (or plain) private key file read through every documented entry point and every form the
+    passphrase argument may take (str, bytes, callable, coroutine function), with and without a public key /
+    certificate file next to it (which makes decryption lazy): the key obtained has the public half of the one
+    written, it signs (forcing the decryption) and the original verifies; a wrong passphrase in any form is
+    refused -- at load time, or when the key is first used."""
+    acc = core.Acc()
+    alg, kw = job
+    key = P.key('c15-' + alg, alg, **kw)
+    pub = key.convert_to_public()
+    root = os.path.join(SCRATCH, 'paths-%d' % os.getpid())
+    shutil.rmtree(root, ignore_errors=True)
+    os.makedirs(root)
+    ca = P.key('c15-paths-ca', 'ssh-ed25519')
+    cert = ca.generate_user_certificate(key, 'id', principals=['u'])
+    schemes = [('pkcs8-pem', dict(cipher_name='aes256-cbc', hash_name='sha256', pbe_version=2)), ('pkcs8-pem', dict(cipher_name='des3-cbc', hash_name='sha1', pbe_version=1)),
+               ('pkcs8-pem', {}), ('openssh', {})]
+    if alg in ('ssh-rsa', 'ssh-dss') or alg.startswith('ecdsa'):
+        schemes.append(('pkcs1-pem', dict(cipher_name='aes128-cbc')))
+    loop = asyncio.new_event_loop()
+
+    def forms(pw):
+        async def co(_fn):
+            return pw
+        return [('str', pw), ('bytes', pw.encode()), ('callable', lambda _fn: pw), ('callable-bytes', lambda _fn: pw.encode()), ('coroutine', co)]
+    for fmt, ekw in schemes:
+        enc = bool(ekw)
+        for side in ('alone', 'with-pub', 'with-cert'):
+            d = os.path.join(root, '%s-%s-%s' % (fmt, '-'.join(map(str, ekw.values())) or 'plain', side))
+            os.makedirs(d)
+            # a bytes passphrase is key material as it stands (the PKCS#12 schemes encode a str as UTF-16): the file
+            # read with a bytes passphrase was written with the same bytes
+            paths = {}
+            for nm, pwx in (('id', 'right'), ('idb', b'right')):
+                paths[nm] = os.path.join(d, nm)
+                with open(paths[nm], 'wb') as f:
+                    f.write(key.export_private_key(fmt, passphrase=pwx if enc else None, **ekw))
+                if side == 'with-pub':
+                    key.write_public_key(paths[nm] + '.pub')
+                elif side == 'with-cert':
+                    cert.write_certificate(paths[nm] + '-cert.pub')
+            for pwname, pw in (('right', 'right'), ('wrong', 'wr0ng')):
+                if not enc and pwname == 'wrong':
+                    continue
+                for form, arg in forms(pw):
+                    path = paths['idb' if 'bytes' in form else 'id']
+                    for entry in ('read_private_key', 'load_keypairs', 'load_keypairs-list', 'client_keys-option'):
+                        if entry == 'read_private_key' and form in ('callable', 'callable-bytes', 'coroutine'):
+                            continue            # documented for str/bytes only
+                        if form == 'coroutine' and entry != 'client_keys-option':
+                            continue            # awaitable passphrases are resolved by the connection options only
+                        label = '%s/%s/%s/%s/%s/%s' % (alg, fmt, '-'.join(map(str, ekw.values())) or 'plain', side, form, entry)
+                        outcome, detail = None, None
+                        try:
+                            if entry == 'read_private_key':
+                                k = asyncssh.read_private_key(path, arg if enc else None)
+                                got_pub = k.public_data
+                                sig = k.sign(b'msg', k.sig_algorithms[0])
+                            else:
+                                if entry == 'load_keypairs':
+                                    kps = asyncssh.load_keypairs(path, arg if enc else None)
+                                elif entry == 'load_keypairs-list':
+                                    kps = asyncssh.load_keypairs([path], arg if enc else None)
+                                else:
+                                    async def mk():
+                                        return await asyncssh.SSHClientConnectionOptions.construct(
+                                            client_keys=[path], passphrase=arg if enc else None, known_hosts=None, agent_path=None, config=[])
+                                    kps = list(loop.run_until_complete(mk()).client_keys)
+                                if not kps:
+                                    raise asyncssh.KeyImportError('no key pair loaded')
+                                got_pub = kps[-1].key_public_data
+                                kp = kps[-1]
+                                if entry == 'client_keys-option' and side != 'alone' and enc:
+                                    # decryption was deferred to first use, which the connection does in an executor thread
+                                    # while its loop runs: do the same
+                                    async def use():
+                                        return await loop.run_in_executor(None, kp.sign, b'msg')
+                                    sig = loop.run_until_complete(use())
+                                else:
+                                    sig = kp.sign(b'msg')
+                                sig = asyncssh.packet.SSHPacket(sig)
+                                sig.get_string()
+                                sig = None
+                            outcome = 'loaded'
+                            if got_pub != pub.public_data:
+                                outcome, detail = 'other-key', 'public half differs from the key written'
+                        except (asyncssh.KeyImportError, asyncssh.KeyEncryptionError) as exc:
+                            outcome, detail = 'refused', repr(exc)[:120]
+                        except Exception as exc:        # pylint: disable=broad-except
+                            outcome, detail = 'crashed', repr(exc)[:160]
+                        acc.add(core.digest((label, pwname, outcome)), transitions=1,
+                                sample={'key_file_read': label, 'passphrase': pwname, 'outcome': outcome} if form == 'callable' and side == 'alone' and pwname == 'right' and fmt == 'pkcs8-pem' and enc and len(acc.samples) < 1 else None)
+                        want = 'loaded' if pwname == 'right' else 'refused'
+                        if fmt == 'openssh' and enc:
+                            continue
+                        if outcome != want:
+                            acc.violation('keys:read-path:%s-passphrase-%s:%s:%s:%s' % (pwname, outcome, form, entry, side),
+                                          '%s with the %s passphrase: %s (%s)' % (label, pwname, outcome, detail),
+                                          {'kind': 'paths', 'alg': alg, 'label': label})
+    loop.close()
+    shutil.rmtree(root, ignore_errors=True)
+    return acc
+
+
 def main(tier, seed):
     t0 = core.now()
     os.makedirs(SCRATCH, exist_ok=True)
@@ -670,6 +776,7 @@ def main(tier, seed):
              if tier == 'thorough' or c == 'ssh-ed25519' or sj == 'ssh-ed25519']
     acc.merge(core.pmap(cert_worker, core.rotate(cjobs, seed)))
     acc.merge(core.pmap(foreign_worker, [0]))
+    acc.merge(core.pmap(paths_worker, KEYTYPES))
     shutil.rmtree(SCRATCH, ignore_errors=True)
     rule = ('7 key types x every private export format/cipher/hash/PBES version asyncssh offers (%d schemes) x '
             'passphrases {1 char, non-ASCII, 31/32/33 chars, 1 kB} (quick: full passphrase grid on one scheme per '
@@ -680,7 +787,9 @@ def main(tier, seed):
             'certificates: CA x subject key types x every combination of the 2 critical options and 6 extensions '
             '(full grid for ed25519/ed25519) written by asyncssh and read by asyncssh, PyCA and ssh-keygen -L; '
             'certificates written by PyCA and by ssh-keygen -s read by asyncssh; EC/RSA/Ed25519/DSA private keys '
-            'in the shapes openssl writes (SEC1 with and without the optional public key, traditional, DER)'
+            'in the shapes openssl writes (SEC1 with and without the optional public key, traditional, DER); one key file (5 schemes, '
+            'alone / next to its .pub / next to its certificate) read through read_private_key, load_keypairs (path, list) and the '
+            'client_keys option with the passphrase as str, bytes, callable or coroutine function, right and wrong'
             % len(private_matrix()))
     return core.finish(PROP, tier, seed, 'exploration', acc, t0, rule,
                        {'key_types': [k for k, _ in KEYTYPES], 'schemes': len(private_matrix())},
@@ -691,6 +800,15 @@ def main(tier, seed):
 
 def replay(rep):
     r = rep['replay']
+    if r.get('kind') == 'paths':
+        os.makedirs(SCRATCH, exist_ok=True)
+        acc = paths_worker((r['alg'], dict(KEYTYPES)[r['alg']]))
+        v = [x for x in acc.violations if x['replay'].get('label') == r.get('label')] or acc.violations[:3]
+        print(json.dumps(v[:5], indent=1, default=repr))
+        if v:
+            print('VIOLATION property=%s replay=(given)' % PROP)
+            return 1
+        return 0
     kw = dict(KEYTYPES)[r['alg']]
     os.makedirs(SCRATCH, exist_ok=True)
     acc = worker((r['alg'], kw, 'thorough'))
